@@ -51,7 +51,7 @@ def table_files(p):
         p + "a.ctb": "include %shy.dic\n" % p + base + "always bc 2356\n",
         p + "hy.dic": "UTF-8\na1b\nb1c\n1d\n",
         p + "a.ct": base.replace("sign a 1\n", "sign a 16\n"),
-        p + "b.ctb": "always de 123456\nsign y 13456\n",
+        p + "b.ctb": "always de 123456\nsign y 13456\nnoback pass2 @123456 @123456-1\nnofor pass2 @123456-1 @123456\n",
         p + "bad.ctb": "sign a 1\nnonsense x 1\nsign b 12\n",
     }
 
@@ -470,7 +470,12 @@ def run(tier):
     v.obligation("correspondence: pointer identities, lou_compileString results and per-operation file opens predicted by the "
                  "Lean cache model on every history", not stats["model_bad"], "; ".join(stats["model_bad"][:3]))
     v.cov["exhaustive"] = (ran == len(cases))
-    v.cov["distribution"] = {"exhaustive_histories": nexh, "exhaustive_depth": depth, "alphabet": [" ".join(map(str, o)) for o in ALPHABET],
+    # the DISPLAY table of a cached list grows (and moves) through run-time rules: the cache entry must follow it,
+    # other entries stay, lou_free releases it (LeakSanitizer on)
+    from .. import dispgrow
+    dg = {}
+    dispgrow.display_growth(v, exe, tier, "C14", dg)
+    v.cov["distribution"] = {"display_growth": dg, "exhaustive_histories": nexh, "exhaustive_depth": depth, "alphabet": [" ".join(map(str, o)) for o in ALPHABET],
                              "random_histories": nrand, "growth_histories": ngrow, "histories_run": ran, "operations": stats["ops"],
                              "results_compared_with_fresh_process": stats["compared"], "distinct_reference_runs": stats["refs"],
                              "lists": {k: val.format(p="") for k, val in LISTS.items()}}
